@@ -132,7 +132,10 @@ int run_c07(verif::Args const& args, verif::Report& rep)
         std::string family = rng.coin(0.3) ? "branch" : "synth";
         ProblemSpec spec = draw_problem(cseed, family, rng.coin(0.25) ? "field" : "");
         spec.num_track_slots = std::min(spec.num_track_slots, 32);
-        spec.status_checker = false;
+        // the debug status checker keeps per-stream aux state behind one shared params object;
+        // its ordering rule rejects the branch family's action layout, so only with synth
+        if (family != "synth")
+            spec.status_checker = false;
         int nthreads = rng.pick(std::vector<int>{2, 2, 3, 4, 4, 8, 16});
         int nevents = std::min<int>(spec.max_events, nthreads * int(rng.integer(1, 3)));
         double emax = rng.pick(std::vector<double>{3, 10, 30});
